@@ -129,12 +129,12 @@ def run_update(ctx, phase="olivine", fabric="olivine_A", regime="matrix_dislocat
 
     def Lfun(I_, t, x):
         a_ = mkarr([[alg.Fn("L", lift(t), tuple(lift(c) for c in x.flat), i, j) for j in range(3)] for i in range(3)])
-        R.callback_arrays.append(("get_velocity_gradient", a_, a_.copy()))
+        R.callback_arrays.append(("get_velocity_gradient", a_, a_.copy(), len(I_.trace)))
         return a_
 
     def xfun(I_, t):
         a_ = mkarr([alg.Fn("x", lift(t), k) for k in range(3)])
-        R.callback_arrays.append(("get_position", a_, a_.copy()))
+        R.callback_arrays.append(("get_position", a_, a_.copy(), len(I_.trace)))
         return a_
     R.Lfun, R.xfun = Native("get_velocity_gradient", Lfun), Native("get_position", xfun)
     upd = I.getattr(m, "update_orientations")
@@ -152,14 +152,15 @@ def run_update(ctx, phase="olivine", fabric="olivine_A", regime="matrix_dislocat
 def callback_array_writes(R):
     """In-place writes into arrays that a user callable returned (the callable may return the same stored array on every call, so such a
     write changes the user's velocity-gradient history): list of (callable, kind of event, location)."""
-    ids = {id(a): name for name, a, _ in R.callback_arrays}
+    ids = {id(a): (name, born) for name, a, _, born in R.callback_arrays}
     out = []
-    for e in R.I.trace:
+    for k, e in enumerate(R.I.trace):
         if e.kind in ("store", "inplace"):
-            hit = [d for d in e.data if isinstance(d, int) and d in ids]
+            # (an identity seen in an event that precedes the creation of the array belonged to a temporary that has died since)
+            hit = [d for d in e.data if isinstance(d, int) and d in ids and k >= ids[d][1]]
             if hit:
-                out.append((ids[hit[0]], e.kind, e.loc))
-    for name, a, saved in R.callback_arrays:
+                out.append((ids[hit[0]][0], e.kind, e.loc))
+    for name, a, saved, _born in R.callback_arrays:
         if any(keyof(x) != keyof(y) for x, y in zip(a.flat, saved.flat)):
             out.append((name, "contents changed", ""))
     return out
